@@ -568,7 +568,15 @@ func init() {
 		if (l.Kind == 1 && t.UTC.IsTrue()) || (l.Kind == 2 && t.UTC.IsFalse()) {
 			return t
 		}
-		panic(unsupported("Time.In with a different location"))
+		if l.Kind == 1 {
+			e.needCivil(t, "In")
+			return e.timeToUTC(st, t)
+		}
+		panic(unsupported("Time.In(Local) of a UTC time"))
+	})
+	stubs["(time.Time).UTC"] = stubTimeMethod(func(e *Engine, st *State, t TimeV, args []Value, pos token.Pos) Value {
+		e.needCivil(t, "UTC")
+		return e.timeToUTC(st, t)
 	})
 	stubs["(time.Time).Local"] = stubTimeMethod(func(e *Engine, st *State, t TimeV, args []Value, pos token.Pos) Value {
 		if t.UTC.IsFalse() || e.opt.Zone == 0 {
@@ -767,6 +775,60 @@ func (e *Engine) exactDiv(t *Term, k uint64) (*Term, bool) {
 	return nil, false
 }
 
+// relToCivil: civil fields for civ seconds after 00:00 of the anchor day on the civil axis (zone view Z2).
+func (e *Engine) relToCivil(st *State, out TimeV, civ *Term, tag string) TimeV {
+	c := e.tc
+	zv := e.zv
+	lt := func(k int64) *Term { return c.BVSlt(civ, e.z24(k)) }
+	okR := c.And(c.Not(lt(-2*86400)), lt(3*86400))
+	if e.feasible(st, c.Not(okR), "civil day range") {
+		panic(unsupported("time arithmetic: result more than two days from the anchor day"))
+	}
+	st.assume(okR)
+	dayOff := c.Ite(lt(-86400), e.z24(-2*86400), c.Ite(lt(0), e.z24(-86400), c.Ite(lt(86400), e.z24(0), c.Ite(lt(172800), e.z24(86400), e.z24(2*86400)))))
+	sod := c.BVSub(civ, dayOff)
+	hw, mw, sw := e.hmsWitness(st, c.True, sod, tag)
+	py, pm, pd := e.prevDay(st, zv.Y, zv.M, zv.D)
+	p2y, p2m, p2d := e.prevDay(st, py, pm, pd)
+	ny, nm, nd := e.nextDay(st, zv.Y, zv.M, zv.D)
+	n2y, n2m, n2d := e.nextDay(st, ny, nm, nd)
+	pick := func(a2, a1, a0, b1, b2 *Term) *Term {
+		return c.Ite(lt(-86400), a2, c.Ite(lt(0), a1, c.Ite(lt(86400), a0, c.Ite(lt(172800), b1, b2))))
+	}
+	out.Y, out.M, out.D = pick(p2y, py, zv.Y, ny, n2y), pick(p2m, pm, zv.M, nm, n2m), pick(p2d, pd, zv.D, nd, n2d)
+	out.H, out.Mi, out.S = hw, mw, sw
+	return out
+}
+
+// timeToUTC: t.UTC() / t.In(time.UTC) for a local civil time.
+func (e *Engine) timeToUTC(st *State, t TimeV) TimeV {
+	c := e.tc
+	if t.UTC.IsTrue() {
+		return t
+	}
+	if !t.UTC.IsFalse() {
+		panic(unsupported("UTC() of a time whose location is symbolic"))
+	}
+	if e.opt.Zone == 0 {
+		t.UTC = c.True
+		return t
+	}
+	if e.opt.Zone == 2 {
+		if t.Rel == nil {
+			panic(unsupported("UTC() of a local time not built by a modelled constructor (zone view Z2)"))
+		}
+		out := e.relToCivil(st, t, t.Rel, "ut")
+		out.UTC, out.Off, out.Bef, out.Rel = c.True, nil, nil, nil
+		return out
+	}
+	// fixed offset: civil - offset
+	off := e.zone.offsetBV(st)
+	d := c.BVMul(c.BVNeg(off), e.bv64(1000000000))
+	out := e.civilAdd(st, t, d).(TimeV)
+	out.UTC = c.True
+	return out
+}
+
 // civilAdd: t.Add(d) for a civil time: whole seconds, |d| < 2 days (anything else is UNSUPPORTED).
 func (e *Engine) civilAdd(st *State, t TimeV, d *Term) Value {
 	c := e.tc
@@ -790,25 +852,7 @@ func (e *Engine) civilAdd(st *State, t TimeV, d *Term) Value {
 		rel := c.BVAdd(t.Rel, s24)
 		bef := c.BVSlt(rel, tau)
 		off := c.Ite(bef, o1, o2)
-		civ := c.BVAdd(rel, off) // seconds after 00:00 of the anchor day on the civil axis
-		lt := func(k int64) *Term { return c.BVSlt(civ, e.z24(k)) }
-		okR := c.And(c.Not(lt(-2*86400)), lt(3*86400))
-		if e.feasible(st, c.Not(okR), "Time.Add day range") {
-			panic(unsupported("Time.Add: result more than two days from the anchor day"))
-		}
-		st.assume(okR)
-		dayOff := c.Ite(lt(-86400), e.z24(-2*86400), c.Ite(lt(0), e.z24(-86400), c.Ite(lt(86400), e.z24(0), c.Ite(lt(172800), e.z24(86400), e.z24(2*86400)))))
-		sod := c.BVSub(civ, dayOff)
-		hw, mw, sw := e.hmsWitness(st, c.True, sod, "ad")
-		py, pm, pd := e.prevDay(st, zv.Y, zv.M, zv.D)
-		p2y, p2m, p2d := e.prevDay(st, py, pm, pd)
-		ny, nm, nd := e.nextDay(st, zv.Y, zv.M, zv.D)
-		n2y, n2m, n2d := e.nextDay(st, ny, nm, nd)
-		pick := func(a2, a1, a0, b1, b2 *Term) *Term {
-			return c.Ite(lt(-86400), a2, c.Ite(lt(0), a1, c.Ite(lt(86400), a0, c.Ite(lt(172800), b1, b2))))
-		}
-		out.Y, out.M, out.D = pick(p2y, py, zv.Y, ny, n2y), pick(p2m, pm, zv.M, nm, n2m), pick(p2d, pd, zv.D, nd, n2d)
-		out.H, out.Mi, out.S = hw, mw, sw
+		out = e.relToCivil(st, out, c.BVAdd(rel, off), "ad")
 		out.Off, out.Bef, out.Rel = c.Ite(bef, zv.O1, zv.O2), bef, rel
 		return out
 	}
